@@ -18,12 +18,14 @@ pub(crate) fn get_relative_file_path_from_abs_file_and_folder_path(
     // check if the dir is a file
     let is_file = abs_folder_path.is_file();
 
-    // could also be the file name
-    let dir_name = PathBuf::from(
-        abs_folder_path
-            .file_name()
-            .expect("Failed to get file/dir name"),
-    );
+    // could also be the file name; a folder given as ".", ".." or "/" has no name of its own:
+    // its files are then named relative to it
+    let Some(dir_name) = abs_folder_path.file_name().map(PathBuf::from) else {
+        return abs_file_pah
+            .strip_prefix(abs_folder_path)
+            .unwrap_or(abs_file_pah)
+            .to_path_buf();
+    };
 
     if is_file {
         dir_name
